@@ -10,6 +10,7 @@ import (
 	"fmt"
 	"math/big"
 	"sort"
+	"strings"
 	"time"
 
 	abci "github.com/tendermint/tendermint/abci/types"
@@ -134,6 +135,9 @@ type Chain struct {
 
 	inBlock bool
 	cur     tmproto.Header
+
+	// Trace collects, when enabled, one line per delivered transaction and per committed block (C14).
+	Trace *[]string
 }
 
 // Options configures genesis.
@@ -154,6 +158,9 @@ func newApp(db dbm.DB, load bool) *app.Teleport {
 		encoding.MakeConfig(app.ModuleBasics), simapp.EmptyAppOptions{})
 }
 
+// GlobalTrace, when set, is attached to every chain created afterwards (C14 scenarios).
+var GlobalTrace *[]string
+
 // NewChain creates a chain, runs InitChain and commits block 1 at StartTime.
 func NewChain(name string, now time.Time, opt Options) *Chain {
 	if opt.Balance == 0 {
@@ -171,6 +178,7 @@ func NewChain(name string, now time.Time, opt Options) *Chain {
 	}
 	c.App = newApp(c.DB, true)
 	c.TxConfig = encoding.MakeConfig(app.ModuleBasics).TxConfig
+	c.Trace = GlobalTrace
 
 	// validators
 	var vals []*tmtypes.Validator
@@ -309,6 +317,9 @@ func (c *Chain) End() {
 	c.AppHashAfter[h] = append([]byte{}, c.App.LastCommitID().Hash...)
 	c.Headers[h] = c.SignedHeader(c.Name, h, c.cur.Time, c.cur.AppHash, c.Vals, c.Signers)
 	c.LastTime = c.cur.Time
+	if c.Trace != nil {
+		*c.Trace = append(*c.Trace, fmt.Sprintf("%s block h=%d app=%x", c.Name, h, c.App.LastCommitID().Hash))
+	}
 }
 
 // Block runs one complete block with the given transactions.
@@ -328,6 +339,25 @@ func (c *Chain) Deliver(txBytes []byte) TxResult {
 		panic("Deliver: no open block")
 	}
 	res := c.App.DeliverTx(abci.RequestDeliverTx{Tx: txBytes})
+	if c.Trace != nil {
+		// Attribute order inside one event is normalised: cosmos-sdk v0.45 builds typed events by iterating a Go map
+		// (TypedEventToEvent), and tendermint 0.34 keeps events and logs out of the results hash. The ABCI log of a
+		// successful tx is a rendering of the same events and is left out for the same reason.
+		h := sha256.New()
+		for _, e := range res.Events {
+			var attrs []string
+			for _, a := range e.Attributes {
+				attrs = append(attrs, fmt.Sprintf("%s=%s;", a.Key, a.Value))
+			}
+			sort.Strings(attrs)
+			fmt.Fprintf(h, "%s{%s}", e.Type, strings.Join(attrs, ""))
+		}
+		logPart := []byte(res.Log)
+		if res.Code == 0 {
+			logPart = nil
+		}
+		*c.Trace = append(*c.Trace, fmt.Sprintf("%s tx h=%d code=%d/%s gas=%d/%d data=%x log=%x events=%x", c.Name, c.cur.Height, res.Code, res.Codespace, res.GasWanted, res.GasUsed, sha256.Sum256(res.Data), sha256.Sum256(logPart), h.Sum(nil)))
+	}
 	out := TxResult{Code: res.Code, Codespace: res.Codespace, Log: res.Log, GasUsed: res.GasUsed, Events: res.Events, Data: res.Data}
 	if res.Code == 0 && len(res.Data) > 0 {
 		if r, err := evmtypes.DecodeTxResponse(res.Data); err == nil && r != nil && (r.Hash != "" || r.VmError != "" || len(r.Logs) > 0) {
@@ -506,7 +536,7 @@ func (c *Chain) Clone() *Chain {
 	n := &Chain{
 		Name: c.Name, DB: db, TxConfig: c.TxConfig, Vals: c.Vals, Signers: c.Signers,
 		Accounts: c.Accounts, Headers: map[int64]*xibctmtypes.Header{}, AppHashAfter: map[int64][]byte{},
-		LastTime: c.LastTime,
+		LastTime: c.LastTime, Trace: c.Trace,
 	}
 	for k, v := range c.Headers {
 		n.Headers[k] = v
